@@ -53,6 +53,7 @@ var gitCmd = &cobra.Command{
 		}
 
 		if cmd.Flag("team").Value.String() == "true" {
+			table = cmd_util.NewOutput(output)
 			teamSummary := GetTeamSummary(commitMessages)
 			table.SetHeader([]string{"EntityName", "RevsCount", "AuthorCount"})
 
@@ -66,6 +67,7 @@ var gitCmd = &cobra.Command{
 		}
 
 		if cmd.Flag("age").Value.String() == "true" {
+			table = cmd_util.NewOutput(output)
 			ages := CalculateCodeAge(commitMessages)
 			var agesDisplay []CodeAgeDisplay
 			for _, info := range ages {
@@ -87,6 +89,7 @@ var gitCmd = &cobra.Command{
 		}
 
 		if cmd.Flag("top").Value.String() == "true" {
+			table = cmd_util.NewOutput(output)
 			authors := GetTopAuthors(commitMessages)
 			table.SetHeader([]string{"Author", "CommitCount", "LineCount"})
 
